@@ -877,6 +877,10 @@ def judge_cont(c, impl, model, findings, stats, verbose=False):
     rest = parts[1:]
     stats["outcomes"][want.split(":")[0] if want.startswith("error") else ("false" if want == "false" else "success")] = \
         stats["outcomes"].get(want.split(":")[0] if want.startswith("error") else ("false" if want == "false" else "success"), 0) + 1
+    if got.startswith("error:") and want.startswith("error:"):
+        # an arithmetic/type error raised inside the program (e.g. `is` on a list put into the state):
+        # which culprit is named is the evaluator's business (C01..C04), the control path is what counts
+        got, want = got.split("(")[0], want.split("(")[0]
     if got != want or any(x not in ("false",) for x in rest):
         findings.append(core.Finding("violation", dict(sig, what="result", feature=",".join(c["features"])[:60]),
                                      "main: implementation %s ; model %s" % (r[:300], m[:300]), keep))
